@@ -215,24 +215,31 @@ class ReproSim(Sim):
 
     def gen(self, rng, st):
         steps = []
+
+        def dims(lo, hi, rank):
+            # now and then a LARGE tensor: size-dependent fast paths are legal places for a seed bypass
+            if rng.random() < 0.2:
+                return [rng.choice([260, 300, 512])] + [rng.choice([257, 300])] + [1] * (rank - 2) if rank >= 2 else [rng.choice([70000, 100000])]
+            return [rng.randint(lo, hi) for _ in range(rank)]
         for _ in range(rng.randint(3, 9)):
             k = rng.choice(["rand", "rand", "init", "layer", "dropout", "split", "train", "sumorder", "sumorder", "dag", "dag"])
             if k == "rand":
                 fn = rng.choice(["rand", "randn", "normal", "randint"])
-                s = {"k": "rand", "fn": fn, "shape": [rng.randint(1, 4) for _ in range(rng.randint(1, 3))]}
+                s = {"k": "rand", "fn": fn, "shape": dims(1, 4, rng.randint(1, 3))}
                 if fn == "normal":
                     s.update(loc=rng.choice([0.0, 1.5]), scale=rng.choice([1.0, 0.2]))
                 if fn == "randint":
                     s.update(low=0, high=rng.randint(2, 10))
             elif k == "init":
-                s = {"k": "init", "fn": rng.choice(INITS), "shape": [rng.randint(2, 5), rng.randint(2, 5)] + ([rng.randint(1, 3)] if rng.random() < 0.3 else [])}
+                s = {"k": "init", "fn": rng.choice(INITS), "shape": dims(2, 5, 2) + ([rng.randint(1, 3)] if rng.random() < 0.3 else [])}
             elif k == "layer":
                 kind = rng.choice(["Linear", "Conv1d", "Conv2d"])
-                s = {"k": "layer", "kind": kind, "a": rng.randint(1, 5), "b": rng.randint(1, 5), "c": rng.randint(1, 3)}
+                big = rng.random() < 0.15
+                s = {"k": "layer", "kind": kind, "a": rng.randint(200, 300) if big else rng.randint(1, 5), "b": rng.randint(250, 400) if big else rng.randint(1, 5), "c": rng.randint(1, 3)}
             elif k == "dropout":
-                s = {"k": "dropout", "p": rng.choice([0.1, 0.5, 0.9]), "shape": [rng.randint(2, 6), rng.randint(2, 6)]}
+                s = {"k": "dropout", "p": rng.choice([0.1, 0.5, 0.9]), "shape": dims(2, 6, 2)}
             elif k == "split":
-                s = {"k": "split", "n": rng.randint(4, 20), "test": rng.choice([0.2, 0.5]), "val": rng.choice([None, 0.25])}
+                s = {"k": "split", "n": rng.choice([rng.randint(4, 20), 5000]), "test": rng.choice([0.2, 0.5]), "val": rng.choice([None, 0.25])}
             elif k == "dag":
                 from sims.progsim import ProgSim
                 from simkit.runner import run_generated
@@ -242,7 +249,8 @@ class ReproSim(Sim):
                     e.pop("fault", None)
                 s = {"k": "dag", "events": evs, "reps": rng.randint(1, 2)}
             elif k == "train":
-                s = {"k": "train", "d": rng.randint(2, 5), "h": rng.randint(2, 6), "c": rng.randint(2, 4), "p": rng.choice([0.0, 0.3]), "batch": rng.randint(2, 6),
+                big = rng.random() < 0.15
+                s = {"k": "train", "d": rng.randint(2, 5), "h": 300 if big else rng.randint(2, 6), "c": rng.randint(2, 4), "p": rng.choice([0.0, 0.3]), "batch": 256 if big else rng.randint(2, 6),
                      "steps": rng.randint(1, 4), "opt": rng.choice(["SGD", "Adam"])}
             else:
                 m = rng.randint(3, 7)
